@@ -289,8 +289,13 @@ class BaseNodeVisitor(ast.NodeVisitor):
                 # just remove the line
                 replacement = Replacement([i + 1], [])
             else:
-                rgx = re.compile(rf"{re.escape(IGNORE_COMMENT)}(\[[^\s\]]+\])?")
-                replacement = Replacement([i + 1], [rgx.sub("", line)])
+                # Whatever follows the marker up to the next "#" explains the ignore and
+                # goes away with it; left behind, it would be read as code.
+                rgx = re.compile(rf"{re.escape(IGNORE_COMMENT)}(\[[^\s\]]+\])?[^#\n]*")
+                new_line = rgx.sub("", line)
+                replacement = Replacement(
+                    [i + 1], [new_line] if new_line.strip() else []
+                )
             self.show_error(
                 node, error_code=error_code, replacement=replacement, obey_ignore=False
             )
